@@ -7,7 +7,8 @@
   pipeline demand when the telescope admits an observation, the
   `provision_ingest_resources` block moves that many machines to the ingest
   pool, each ingest allocation process (`allocate_task_to_cluster`) gives its
-  machine back when its task has finished, and the observation's ingest
+  machine back when its task's body has ended and `env.now >= task.aft` (F13; both
+  hold at `ast + duration`), and the observation's ingest
   supervisor (`allocate_ingest`) takes the demand off the counter in its last
   block.
 
@@ -136,9 +137,10 @@ The side condition of `ReachTelFirst` is discharged by two facts (TopsimProofs/I
 * `IlTelFirst` (an order invariant of the heap, in the style of `MonFirst`): inside an instant the
   telescope's block precedes every block of a process other than the monitor and the task bodies;
 * `ILTI` (a timing invariant of the block system): the body of an ingest task of an observation
-  admitted at `ast` with duration `D` ends at `ast + D - 1`, the supervisor ends at `ast + D`,
-  hence an allocation process left behind by its supervisor polls (and returns its machine)
-  before the telescope's next block. -/
+  admitted at `ast` with duration `D` ends at `ast + D - 1` and records the finish `ast + D`, the
+  supervisor ends at `ast + D`, hence an allocation process left behind by its supervisor polls,
+  finds the body ended and the recorded finish reached (F13), and returns its machine before the
+  telescope's next block. -/
 
 /-- **L3 refines L2.**  Every state of an uninterrupted run of the deterministic simulator is a
 state of the block system, reached by resuming each time a process of minimal wake time with the
